@@ -288,16 +288,32 @@ def check_read_conf(ctx, rng):
             w = {'env': env, 'existing_files': [os.path.relpath(c, root) for i, c in enumerate(cands) if i in layout], 'file_keys': fkeys,
                  'location': loc_kind, 'style': style, 'file_text': files[layout[0]][1] if layout else None}
             del OPEN_LOG[:]
+            no_home_var = ci % 6 == 5
+            if no_home_var:
+                # a process started without HOME in its environment (a service, cron, `env -i`): the user's home directory is the one
+                # the password database names, and the per-user candidates are where they always are
+                import pwd
+                real_getpwuid = pwd.getpwuid
+                pw_ = real_getpwuid(os.getuid())
+                pwd.getpwuid = lambda uid_, pw_=pw_, home=home: pw_.__class__((pw_[0], pw_[1], pw_[2], pw_[3], pw_[4], home, pw_[6]))
+                del os.environ['HOME']
+                ctx.event('HOME-absent-from-the-environment')
             _hook_on[0] = True
             try:
                 got = client_conf.read_client_conf()
             except Exception as e:   # noqa
                 _hook_on[0] = False
                 os.path.exists = real_exists
+                if no_home_var:
+                    pwd.getpwuid = real_getpwuid
+                    os.environ['HOME'] = home
                 ctx.report(f'read-client-conf-raises:{type(e).__name__}@{raising_site(e)[0]}', f'{e!r}', w)
                 continue
             _hook_on[0] = False
             os.path.exists = real_exists
+            if no_home_var:
+                pwd.getpwuid = real_getpwuid
+                os.environ['HOME'] = home
             real_cands = {os.path.realpath(c_) for c_ in all_user_cands + sys_cands if os.path.lexists(c_)}
             opened = [os.path.realpath(p) for p in OPEN_LOG if os.path.realpath(p) in real_cands]      # whichever spelling of the path was opened
             ctx.case((envs, layout, fkeys, loc_kind, style), nontrivial=bool(envs or (layout and fkeys)),
@@ -510,6 +526,7 @@ def run(ctx):
     check_keychain(ctx, rng)
     for k in ('read-after-a-refused-version-of-the-file', 'unix-faces-opened-at-the-same-time', 'look-alike-environment-variables', 'configuration-file-longer-than-4KiB', 'environment-override-present-but-empty', 'candidate-file-is-a-symlink', 'home-0', 'home-1', 'home-2', 'configuration', 'audit-open-checked', 'face-uri-supported', 'face-uri-unsupported', 'keychain', 'store-scheme-refused'):
         ctx.need_event(k)
+    ctx.need_event('HOME-absent-from-the-environment')
     if sys.platform.startswith('linux'):
         ctx.need_event('forwarder-sockets-present-01')
         ctx.need_event('forwarder-sockets-present-11')
